@@ -123,6 +123,9 @@ func (d *dispatcher) ServeHTTP(w http.ResponseWriter, req *http.Request) {
 	location.Scheme = ep.Scheme
 	location.Host = ep.Host
 	location.Path = req.URL.Path
+	// keep the client's escaping (e.g. %2F inside a path segment); without it
+	// an escaped slash is forwarded as a path separator
+	location.RawPath = req.URL.RawPath
 	location.RawQuery = req.URL.Query().Encode()
 
 	newReq, cancel := newRequestForProxy(location, req, extraInfo.Hostname)
